@@ -612,6 +612,11 @@ func c05SafeIndex(c *Ctx) {
 				if _, ct := v.spineOf(t); ct != nil {
 					return false
 				}
+				if w, isWin := t.(TSlice); isWin {
+					if _, ct := v.spineOf(w.X); ct != nil {
+						return false // a window of a spine: its length follows from the bounds
+					}
+				}
 				if variadic != nil && isParamTerm(t, variadic) {
 					return false
 				}
@@ -792,7 +797,13 @@ func c05SafeIndex(c *Ctx) {
 						l := a.Loops[li]
 						if l.Range != nil {
 							// key ranges over [0, len(Over)-1] when Over is a list spine that the body does not re-install
-							b, ct := v.spineOf(l.Over)
+							over := l.Over
+							if w, isWin := over.(TSlice); isWin {
+								if _, wct := v.spineOf(w.X); wct != nil {
+									over = w.X
+								}
+							}
+							b, ct := v.spineOf(over)
 							if fl, isFree := others["#free:"+key(l.Over)]; isFree && l.Key != nil {
 								for k := int64(0); k < fl; k++ {
 									nv := map[types.Object]int64{}
@@ -815,6 +826,28 @@ func c05SafeIndex(c *Ctx) {
 							if !ok {
 								ag.undec = "length of the ranged spine is unknown"
 								return
+							}
+							if win, isWin := l.Over.(TSlice); isWin {
+								// a window spine[lo:hi] of the spine: the key ranges over [0, hi-lo)
+								if _, nested := win.X.(TSlice); nested || win.Max != nil {
+									ag.undec = "length of the ranged window is unknown"
+									return
+								}
+								lo, hi := int64(0), ln
+								okW := true
+								if win.Lo != nil {
+									e := &termEnv{hook: h}
+									lo, okW = e.int(win.Lo)
+								}
+								if win.Hi != nil && okW {
+									e := &termEnv{hook: h}
+									hi, okW = e.int(win.Hi)
+								}
+								if !okW {
+									ag.undec = "length of the ranged window is unknown"
+									return
+								}
+								ln = hi - lo
 							}
 							if loopInstallsSpine(v, l) {
 								ag.undec = "the ranged spine is re-installed inside the loop"
